@@ -110,6 +110,9 @@ type Options struct {
 	Faults      []Fault
 	// ReadDirDelay is slept in every directory listing step (C16).
 	ReadDirDelay time.Duration
+	// SiteDelay is slept before every operation of the named site ("stat", "open", "fstat",
+	// "read", "readdir"), outside the file system's own lock (C16).
+	SiteDelay map[string]time.Duration
 }
 
 // ErrIO is the non-permission error kind.
@@ -189,6 +192,9 @@ func mkErr(kind string) error {
 
 // op logs an operation and returns the injected error, if any.
 func (f *FS) op(site, p string) error {
+	if d := f.opt.SiteDelay[site]; d > 0 {
+		time.Sleep(d)
+	}
 	f.mu.Lock()
 	defer f.mu.Unlock()
 	key := site + "\x00" + p
